@@ -10,6 +10,7 @@ import (
 	"os"
 	"os/exec"
 	"path/filepath"
+	"runtime/debug"
 	"sort"
 	"strconv"
 	"strings"
@@ -234,7 +235,7 @@ func (c *Ctx) Units(phase string, n int, fn func(u int)) {
 				c.NotExhaustive("deadline reached in phase " + phase)
 				break
 			}
-			fn(u)
+			c.guarded(phase, u, fn)
 		}
 		c.finishWorker()
 	}
@@ -248,7 +249,7 @@ func (c *Ctx) Units(phase string, n int, fn func(u int)) {
 				c.NotExhaustive("deadline reached in phase " + phase)
 				break
 			}
-			fn(u)
+			c.guarded(phase, u, fn)
 		}
 		return
 	}
@@ -284,6 +285,56 @@ func (c *Ctx) Units(phase string, n int, fn func(u int)) {
 		}(i)
 	}
 	wg.Wait()
+}
+
+// guarded runs one unit.  A panic that escapes it is a violation (rule no-panic) when
+// the stack shows it was raised inside gmqtt code called by the check, and a machinery
+// error otherwise.
+func (c *Ctx) guarded(phase string, u int, fn func(u int)) {
+	defer func() {
+		x := recover()
+		if x == nil {
+			return
+		}
+		st := string(debug.Stack())
+		frame := ""
+		lines := strings.Split(st, "\n")
+		seenPanic := false
+		for _, l := range lines {
+			l = strings.TrimSpace(l)
+			if strings.HasPrefix(l, "panic(") {
+				seenPanic = true
+				continue
+			}
+			if !seenPanic || !strings.Contains(l, "(") || strings.HasPrefix(l, "/") {
+				continue
+			}
+			if strings.HasPrefix(l, "runtime.") || strings.HasPrefix(l, "runtime/") {
+				continue
+			}
+			// first non-runtime frame after the panic: gmqtt's own code or ours?
+			if strings.HasPrefix(l, "github.com/DrmagicE/gmqtt/") && !strings.Contains(l, "/zzverif/") && !strings.Contains(l, "Verif") {
+				frame = strings.TrimPrefix(l, "github.com/DrmagicE/gmqtt/")
+				if j := strings.Index(frame, "("); j > 0 {
+					frame = frame[:j]
+				}
+			}
+			break
+		}
+		msg := fmt.Sprint(x)
+		if len(msg) > 80 {
+			msg = msg[:80]
+		}
+		if frame == "" {
+			c.Fatal("panic in phase %s unit %d outside gmqtt code: %v\n%s", phase, u, x, st)
+			return
+		}
+		if len(lines) > 30 {
+			lines = lines[:30]
+		}
+		c.Violate("no-panic", msg+" @ "+frame, map[string]any{"phase": phase, "unit": u}, "no panic", fmt.Sprint(x)+"\n"+strings.Join(lines, "\n"))
+	}()
+	fn(u)
 }
 
 func sanitize(s string) string {
